@@ -62,3 +62,98 @@ def make_ls_solver(cls_name, u, du, has_bounds, lower, upper, method, alpha=None
 
 def Cpx(v):
     return complex(v)
+
+
+def make_scripted_solver(kind, options, script, cs=False, linesearch=None, use_real_init=True):
+    """A real NonlinearSolver / LinearSolver whose residual norms come from `script` (the norm
+    history) while everything else (_solve, _iter_initialize, report_failure, Recording, options
+    validation) is the real code.  Returns (solver, state) where state collects ghost facts."""
+    import numpy as np
+    import openmdao.api as om
+    from openmdao.solvers.solver import NonlinearSolver, BlockLinearSolver
+    state = {'reported': False, 'last_norm': None, 'norm0': None, 'iters': 0, 'norms': list(script),
+             'single_iteration_norms': []}
+
+    def nxt():
+        if state['norms']:
+            v = state['norms'].pop(0)
+        else:
+            v = state['last_norm'] if state['last_norm'] is not None else 1.0
+        state['last_norm'] = v
+        return np.float64(v)
+
+    if kind == 'nonlinear':
+        class Scripted(NonlinearSolver):
+            SOLVER = 'NL: X'
+
+            def _iter_get_norm(self):
+                return nxt()
+
+            def _run_apply(self):
+                pass
+
+            def _single_iteration(self):
+                state['iters'] += 1
+                state['single_iteration_norms'].append(state['last_norm'])
+
+            def _iter_initialize(self):
+                r = NonlinearSolver._iter_initialize(self)
+                state['last_norm'] = r[1]
+                return r
+
+            def report_failure(self, msg):
+                state['reported'] = True
+                return NonlinearSolver.report_failure(self, msg)
+    else:
+        class Scripted(BlockLinearSolver):
+            SOLVER = 'LN: X'
+
+            def _iter_get_norm(self):
+                return nxt()
+
+            def _run_apply(self, init=False):
+                pass
+
+            def _update_rhs_vec(self):
+                pass
+
+            def _single_iteration(self):
+                state['iters'] += 1
+                state['single_iteration_norms'].append(state['last_norm'])
+
+            def _iter_initialize(self):
+                r = BlockLinearSolver._iter_initialize(self)
+                state['last_norm'] = r[1]
+                return r
+
+            def report_failure(self, msg):
+                state['reported'] = True
+                return BlockLinearSolver.report_failure(self, msg)
+    p = om.Problem()
+    p.model.add_subsystem('c', om.IndepVarComp('x', 1.0), promotes=['*'])
+    s = Scripted()
+    if kind == 'nonlinear':
+        p.model.nonlinear_solver = s
+    else:
+        p.model.linear_solver = s
+    p.setup()
+    p.final_setup()
+    for k, v in options.items():
+        if k in s.options:
+            try:
+                s.options[k] = v
+            except Exception:
+                # the declaration rejects this value (e.g. negative tolerance): bypass validation so the
+                # contract's own precondition decides
+                s.options._dict[k]['val'] = v
+    s.options['iprint'] = -1
+    p.model.under_complex_step = bool(cs)
+    if kind == 'nonlinear' and linesearch is not None:
+        class LS:
+            pass
+        ls = LS()
+        ls.options = dict(linesearch)
+        s._linesearch = ls
+        Scripted.linesearch = property(lambda self: self._linesearch)
+    s._keepalive = p
+    return s, state
